@@ -205,6 +205,92 @@ theorem buildRangesTerms_RangesOK (dflt : Text) : ∀ (terms : List Text) (wb wb
     | negInf => simp only [hd] at hb; cases hb
     | diverge => simp only [hd] at hb; cases hb
 
+/-- a term of `build_ranges` never disturbs a range that is registered already -/
+theorem buildRangesTerm_keeps (dflt : Text) (wb wb' : Wb) (term : Text) (hok : RangesOK wb)
+    (hb : buildRangesTerm dflt wb term = .val wb') :
+    ∀ k m, dget wb.ranges k = some m → dget wb'.ranges k = some m := by
+  intro k m hk
+  unfold buildRangesTerm at hb
+  by_cases hcolon : has ':' term = true
+  · simp only [hcolon, if_true] at hb
+    cases hr : resolveRanges (if has '!' term = true then term else dflt ++ ['!'] ++ term) with
+    | val p =>
+      obtain ⟨sh, m'⟩ := p
+      simp only [hr, dget_dset_same] at hb
+      cases hadd : addBlankCells m'.flatten wb.cells with
+      | val cells =>
+        simp only [hadd] at hb
+        injection hb with hb
+        subst hb
+        by_cases hkr : k = (if has '!' term = true then term else dflt ++ ['!'] ++ term)
+        · obtain ⟨sh0, h0⟩ := hok k m hk
+          rw [hkr] at h0
+          rw [h0] at hr
+          injection hr with hr
+          injection hr with _ hm
+          show dget (dset wb.ranges _ m') k = some m
+          rw [hkr, dget_dset_same, hm]
+        · show dget (dset wb.ranges _ m') k = some m
+          rw [dget_dset_other _ _ _ _ hkr]; exact hk
+      | crash k => simp only [hadd] at hb; cases hb
+      | nan => simp only [hadd] at hb; cases hb
+      | posInf => simp only [hadd] at hb; cases hb
+      | negInf => simp only [hadd] at hb; cases hb
+      | diverge => simp only [hadd] at hb; cases hb
+    | crash k => simp only [hr] at hb; cases hb
+    | nan => simp only [hr] at hb; cases hb
+    | posInf => simp only [hr] at hb; cases hb
+    | negInf => simp only [hr] at hb; cases hb
+    | diverge => simp only [hr] at hb; cases hb
+  · have hcolon' : has ':' term = false := by simpa using hcolon
+    simp only [hcolon', Bool.false_eq_true, if_false] at hb
+    cases hg : dget wb.ranges term with
+    | none =>
+      simp only [hg] at hb
+      injection hb with hb; subst hb; exact hk
+    | some m0 =>
+      simp only [hg] at hb
+      cases hadd : addBlankCells m0.flatten wb.cells with
+      | val cells =>
+        simp only [hadd] at hb
+        injection hb with hb
+        subst hb; exact hk
+      | crash k => simp only [hadd] at hb; cases hb
+      | nan => simp only [hadd] at hb; cases hb
+      | posInf => simp only [hadd] at hb; cases hb
+      | negInf => simp only [hadd] at hb; cases hb
+      | diverge => simp only [hadd] at hb; cases hb
+
+/-- **`build_ranges` registers every range term it is given** (and keeps the ranges registered before) -/
+theorem buildRangesTerms_registers (dflt : Text) : ∀ (terms : List Text) (wb wb' : Wb), RangesOK wb →
+    buildRangesTerms dflt terms wb = .val wb' →
+    (∀ k m, dget wb.ranges k = some m → dget wb'.ranges k = some m) ∧
+    ∀ t ∈ terms, has ':' t = true → has '!' t = true →
+      ∃ sh m, resolveRanges t = .val (sh, m) ∧ dget wb'.ranges t = some m
+  | [], wb, wb', _, hb => by
+    simp only [buildRangesTerms] at hb
+    injection hb with hb; subst hb
+    exact ⟨fun _ _ h => h, fun t ht => by cases ht⟩
+  | t0 :: rest, wb, wb', hok, hb => by
+    simp only [buildRangesTerms] at hb
+    cases hd : buildRangesTerm dflt wb t0 with
+    | val wb1 =>
+      simp only [hd] at hb
+      obtain ⟨hok1, _, _, _, hreg⟩ := buildRangesTerm_spec dflt wb wb1 t0 hok hd
+      have hkeep := buildRangesTerm_keeps dflt wb wb1 t0 hok hd
+      obtain ⟨hk2, hr2⟩ := buildRangesTerms_registers dflt rest wb1 wb' hok1 hb
+      refine ⟨fun k m h => hk2 k m (hkeep k m h), ?_⟩
+      intro t ht h1 h2
+      rcases List.mem_cons.mp ht with rfl | ht
+      · obtain ⟨sh, m, e1, e2, _⟩ := hreg h1 h2
+        exact ⟨sh, m, e1, hk2 _ _ e2⟩
+      · exact hr2 t ht h1 h2
+    | crash k => simp only [hd] at hb; cases hb
+    | nan => simp only [hd] at hb; cases hb
+    | posInf => simp only [hd] at hb; cases hb
+    | negInf => simp only [hd] at hb; cases hb
+    | diverge => simp only [hd] at hb; cases hb
+
 /-- **the model built from a dict / an archive holds, for every registered range (formula ranges and
     named ranges), exactly the matrix `resolve_ranges` gives for its key.** -/
 theorem compile_RangesOK (dflt : Text) (items : List (Text × Item)) (names : List (Text × Text)) (wb : Wb)
